@@ -387,3 +387,21 @@ CHECKS['C17'].update({
     'technique': "Lean 4 generic predicate lifting through the faithful parser model + case-closure simulation on the regex semantics + flag "
                  "tables; platform-relation search",
 })
+CHECKS['C04'].update({
+    'text': "Theorems (Lean): the capture matcher used by REALPATH matching IS the regex semantics — fullmatchCap_isSome_iff (Re.fullmatchCap finds a "
+            "match iff Re.M has one: sound and complete, fuel adequacy proved, for every regex with well-formed repeats, which every regex the pass "
+            "emits has: parse_repOK), fullmatchCap_spans / fullmatchCap_MC (the reported group spans are those of ONE accepting run and each span is "
+            "a segment its group's body matches); matchReal_real_iff / matchReal_pure_iff (the model of _Match.match: REALPATH = lexists and the "
+            "link rule on the captured spans and full match; without REALPATH = full match), globmatch_fullMatch (a path the regex does not fully "
+            "match is never accepted), matchReal_real_nocap (no `**` capture or FOLLOW: REALPATH matching = exists and full match), "
+            "real_link_rule_first (no symlink inside the first `**` capture), REALPATH side clauses for all trees (non-existent false, directory "
+            "slash, relative vs absolute). Main equality glob = globmatch(REALPATH) is FALSE on this tree (witness theorems D7, D8, G2, G3) and "
+            "is searched directly. Tie: K5 (walker events) + K6 (globmatch/globfilter REALPATH vs matchReal on every entry, also through links, "
+            "root_dir / cwd / dir_fd). Search: strip(glob) vs {u in entries ∪ through-link paths ∪ results | globmatch(u, REALPATH)} with "
+            "known findings attributed by call-site signature.",
+    'note': TB + "PARTIAL: that runCap returns Python's FIRST match (priority order) is validated by K6, not proved — with several `**` groups the "
+            "split is assumed; later groups are tested under the base the first one left (defect G3). Open known findings KF-D7, D8, G2, G3, "
+            "G5-G8, D14, D16, D17, D5, D6, D3.",
+    'technique': "Lean 4 soundness/completeness proof of the capture matcher w.r.t. the declarative regex semantics + characterisation of the "
+                 "match model + side-clause theorems; exact-sequence correspondence and direct glob-vs-globmatch search",
+})
